@@ -48,7 +48,7 @@ MANIFEST = dict(
          'container and layout with LZMA as an inverse pair (header, 64-row table in standard and L4D2 field order, revision, '
          'payload placement in write order, game-lump directory with absolute offsets, NUL separators and the dummy entry); '
          'four wf conditions shown necessary. order_consistent bsp_graph, shape_ok bsp_shape, layout_ok bsp_layout, '
-         'bsp_layout = std_layout and 24 further named obligations are re-derived from bsp.py and kernel-checked on every run.',
+         'bsp_layout = std_layout and 25 further named obligations are re-derived from bsp.py and kernel-checked on every run.',
     note='Assumed in the theorems (visible hypotheses): each lump writer inverts its reader on the file\'s lumps (codec_ok, '
          'wr_len_ok: property C11); decompress (compress d) = d (CPython lzma). The container theorem is about the model '
          'Fmt/BspContainer.v, tied to BSP.read/BSP.save by byte-exact correspondence on random containers (not by a translator of '
@@ -62,8 +62,9 @@ MANIFEST = dict(
          'count by a look at faces + save (same parsed content, different bytes): outside the inputs searched. Hidden mutations: '
          'the translator lists the (reader, view) pairs by a taint analysis (may-analysis of direct attribute/item stores and '
          'mutating method calls, followed through BSP methods; changes made inside other classes\' methods are not seen) and '
-         'the check pins the list; for (bmodels, ents) the graph hypotheses of the theorem are obligations, "only after the '
-         'parse succeeded" and "the writer undoes it" are searched (malformed input bmodel_ref, oracle); the texinfo/hammer_id '
+         'the check pins the list; for (bmodels, ents) the graph hypotheses of the theorem and "nothing that can raise follows '
+         'the first change" (a syntactic tail condition on the reader) are obligations, "the writer undoes it" is searched '
+         '(malformed input bmodel_ref, oracle); the texinfo/hammer_id '
          'fields the face readers set on the shared orig_faces objects are searched only. Not modelled, '
          'searched only: VitaminSource-only branches, '
          'zipfile. A save that raises because a writer looks at an unparsable view of a malformed file produces no '
@@ -901,6 +902,10 @@ def run(ck: Ck) -> None:
             'restored_mutations_are_looked_at_by_reader_and_writer_and_unique':
                 f'forallb (fun p => mem (snd p) (v_rdeps (decl bsp_graph (fst p))) && mem (snd p) (v_wdeps (decl bsp_graph (fst p))) && '
                 f'forallb (fun q => negb (Nat.eqb (snd q) (snd p)) || Nat.eqb (fst q) (fst p)) bsp_reader_elem_mutations) {restored_coq}',
+            # hypothesis early = false of the same theorem: from the first change on, the reader consists of nothing but the
+            # changes themselves, the loops / tests around them and the final return (nothing that can still raise follows)
+            'restored_mutations_happen_after_everything_that_can_raise':
+                f'forallb (fun p => negb (existsb ({pair_eqb} p) bsp_reader_elem_mutations_early)) {restored_coq}',
             'readers_only_read_the_views_they_look_at': 'forallb (fun u => Nat.eqb (snd u) 0) bsp_reader_uses',
             'writers_only_read_or_append_to_the_views_they_look_at': 'forallb (fun u => Nat.leb (snd u) 1) bsp_writer_uses',
         })
@@ -1100,6 +1105,7 @@ def run(ck: Ck) -> None:
                    'stores_go_to_owned_lumps', 'conditional_stores_only_FACEIDS_unowned', 'stores_outside_the_view_go_to_unowned_lumps',
                    'readers_change_objects_of_other_views_only_where_reviewed', 'writers_change_no_objects_of_other_views',
                    'restored_mutations_are_looked_at_by_reader_and_writer_and_unique',
+                   'restored_mutations_happen_after_everything_that_can_raise',
                    'cleared_lumps_are_never_stored_conditionally'):
             if inst.get(nm) is False:
                 ck.explain('instance:' + nm)
